@@ -167,7 +167,7 @@ class SchemaGen:
         opts = [("bool", self.s_bool, 1), ("integer", self.s_integer, 3), ("number", self.s_number, 1),
                 ("string", self.s_string, 4), ("string_enum", self.s_string_enum, 2),
                 ("typed_enum", self.s_typed_enum, 1),
-                ("not_enum", self.s_not_enum, 0.5 if self.profile != "F" else 0),
+                ("not_enum", self.s_not_enum, 0.5 if self.profile != "F" else 0),  # F excludes deny lists (C02)
                 ("null", self.s_null, 0 if no_null else 0.3)]
         opts = [o for o in opts if self.allowed(o[0]) and o[2] > 0]
         return self.weighted(opts)()
